@@ -26,6 +26,8 @@ struct Plan : sim::PlanBase {
   bool ordered = true;    // SynchronizeThreads()
   uint64_t eval_seed = 0; // decides how many decision points an evaluation contains
   int eval_max = 2;
+  long slow_frame = -1;   // >= 1: evaluating this frame takes slow_s simulated seconds (a stalled worker)
+  int slow_s = 0;
 };
 
 struct History {
@@ -163,6 +165,7 @@ void HWorker::EvalConfiguration(csg::Topology *top, csg::Topology *) {
   uint64_t h = sim::hmix(sim::hmix(S.plan->eval_seed, (uint64_t)f), (uint64_t)id);
   int pts = S.plan->eval_max > 0 ? (int)(h % (uint64_t)(S.plan->eval_max + 1)) : 0;
   for (int k = 0; k < pts; k++) sim::point(U_EVAL, f);
+  if (S.plan->slow_frame == f && S.plan->slow_s > 0) { m.probes["slow_evaluation"]++; sim::sleep_ns((long long)S.plan->slow_s * 1000000000LL); }
   // reach probes
   if (!m.delivered.empty() && m.delivered.back() > f) m.probes["later_frame_read_during_eval"]++;
   S.evals_in_flight--;
@@ -249,6 +252,7 @@ struct Lib {
     if (r.chance(0.2)) { std::vector<double> bs = {0.0, 1.5, 2.0, (double)p.F - 0.5, (double)p.F + 1.0, (double)r.below((uint64_t)p.F + 1) + 0.5}; p.begin = r.pick(bs); }
     p.eval_seed = r.next() >> 1;
     p.eval_max = (int)r.below(4);
+    if (r.chance(0.15)) { p.slow_frame = 1 + (long)r.below((uint64_t)p.F); int ss[3] = {1, 40, 400}; p.slow_s = ss[r.below(3)]; }
     p.pick_strategy(r);
     return p;
   }
@@ -257,7 +261,7 @@ struct Lib {
     js::Value v = js::Value::obj();
     p.base_to_json(v);
     v.set("N", p.N).set("F", p.F).set("first_frame", p.first_frame).set("nframes", p.nframes).set("ordered", p.ordered)
-     .set("eval_seed", (long long)p.eval_seed).set("eval_max", p.eval_max).set("begin", p.begin);
+     .set("eval_seed", (long long)p.eval_seed).set("eval_max", p.eval_max).set("begin", p.begin).set("slow_frame", p.slow_frame).set("slow_s", p.slow_s);
     return v;
   }
   static Plan from_json(const js::Value &v) {
@@ -266,6 +270,7 @@ struct Lib {
     p.N = (int)v.num("N", 2); p.F = (int)v.num("F", 1); p.first_frame = (long)v.num("first_frame", -1); p.nframes = (long)v.num("nframes", -1);
     p.ordered = v.at("ordered").b; p.eval_seed = (uint64_t)v.num("eval_seed", 0); p.eval_max = (int)v.num("eval_max", 0);
     p.begin = v.has("begin") ? v.at("begin").d : -1;
+    p.slow_frame = (long)v.num("slow_frame", -1); p.slow_s = (int)v.num("slow_s", 0);
     return p;
   }
 
@@ -280,6 +285,7 @@ struct Lib {
     if (p.nframes > 1) { Plan q = p; q.nframes = p.nframes - 1; add(q); }
     if (p.nframes >= 0) { Plan q = p; q.nframes = -1; add(q); }
     if (p.begin >= 0) { Plan q = p; q.begin = -1; add(q); }
+    if (p.slow_s > 0) { Plan q = p; q.slow_s = 0; q.slow_frame = -1; add(q); }
     if (p.strat_type != sim::Strategy::RW) { Plan q = p; q.strat_type = sim::Strategy::RW; add(q); }
     return out;
   }
